@@ -49,6 +49,7 @@ type Prop struct {
 	Label          string                // variant label
 	ExtraNative    map[string]string // native test cases: case name -> Go expression of type string
 	Custom      func(r *runner, ev *evidence, pool *gosym.Pool) int // property specific deciding step (replaces the harness loop)
+	SchedMaxJ      int64 // gosched: bound on the number of jobs (0: the tier's default)
 	RealMeta       bool // run the real meta registry (reflection) instead of the no-op stub
 	QuickBudget    time.Duration
 	ThoroughBudget time.Duration
